@@ -269,6 +269,14 @@ pub fn tree_walker(
                     // guarantee a worker will action the creation
                     // before a subsequent copy operation requires it.
                     debug!("Creating target directory {:?}", target);
+                    // An existing non-directory (e.g. a symbolic link to a
+                    // directory) must not be taken for the directory: the
+                    // tree would be written through it to somewhere else.
+                    if entry_exists(&target)? && !target.symlink_metadata()?.is_dir() {
+                        let msg = format!("Cannot overwrite non-directory {:?} with a directory", target);
+                        error!("{msg}");
+                        return Err(XcpError::CopyError(msg).into())
+                    }
                     if let Err(err) = create_dir_all(&target) {
                         let msg = format!("Error creating target directory: {}", err);
                         error!("{msg}");
